@@ -822,3 +822,65 @@ theorem c01_local_error_quadratic_mcwf {H : Matrix n n ℂ} {Ls : List (Proc (Ma
   ⟨quadratic_error_mcwf hA hS hH ρ hρ hκ, quadratic_error_avgState hA hS hH ρ hρ hκ⟩
 
 end Yaqs.Consistency
+
+/-! ## the executable pieces the lottery tie runs on the dense vector (`noJumpTaken`, `applyProc`, `denseNrm`) -/
+namespace Yaqs.Lottery
+
+/-- a dense squared norm is non-negative -/
+theorem vecNormSq_nonneg (v : Vec) : 0 ≤ vecNormSq v := by
+  unfold vecNormSq
+  induction v with
+  | nil => simp
+  | cons a t ih =>
+    simp only [List.map_cons, List.sum_cons]
+    have : 0 ≤ CR.normSq a := by
+      unfold CR.normSq
+      exact Rat.add_nonneg (mul_self_nonneg _) (mul_self_nonneg _)
+    exact Rat.add_nonneg this ih
+
+/-- **C01.2b (the jump decision)** `stochastic_process` keeps the no-jump branch exactly when the uniform draw is at or above
+    `dp = 1 − ⟨ψ̃|ψ̃⟩`; for a draw in `[0,1)` a jump is therefore taken exactly when the draw lies below the clamped jump
+    probability `jumpProb n` that `lottery` uses — the boundary draw `r = dp` does not jump, and `dp ≤ 0` never jumps -/
+theorem no_jump_rule (r n : Rat) (h0 : 0 ≤ r) (h1 : r < 1) :
+    (noJumpTaken r (stochasticFactor n) = true ↔ stochasticFactor n ≤ r) ∧
+    (noJumpTaken r (stochasticFactor n) = false ↔ r < jumpProb n) := by
+  unfold noJumpTaken jumpProb
+  constructor
+  · simp
+  · rw [decide_eq_false_iff_not, not_le]
+    constructor
+    · intro h
+      have : r < max 0 (stochasticFactor n) := lt_of_lt_of_le h (le_max_right _ _)
+      exact lt_min h1 this
+    · intro h
+      have h2 : r < max 0 (stochasticFactor n) := lt_of_lt_of_le h (min_le_right _ _)
+      rcases lt_max_iff.mp h2 with h3 | h3
+      · exact absurd h0 (not_le.mpr h3)
+      · exact h3
+
+/-- **C01.1c (the lottery the tie evaluates)** the driver computes the weights from the dense vector: `denseNrm L v p` is the
+    squared norm of `applyProc L p v` (the one-site matrix on its site, the two factors of a long-range Pauli pair on their
+    own sites in the order of `sites`, the 4×4 matrix on an adjacent pair; `0` where the real code would raise).  It is
+    non-negative, so the hypotheses of `c01_lottery_nonneg` are met by what the driver runs, and the probability vector it
+    prints is `c01_probVector_aligned` at `nrm := denseNrm L v` -/
+theorem dense_lottery_link (L : Nat) (v : Vec) (p : Proc) :
+    0 ≤ denseNrm L v p ∧
+    (∀ w, applyProc L p v = some w → denseNrm L v p = vecNormSq w) ∧
+    (applyProc L p v = none → denseNrm L v p = 0) := by
+  refine ⟨?_, ?_, ?_⟩
+  · unfold denseNrm
+    split
+    · exact vecNormSq_nonneg _
+    · exact Rat.le_refl
+  · intro w h; unfold denseNrm; rw [h]
+  · intro h; unfold denseNrm; rw [h]
+
+/-- where `applyProc` refuses (the real code raises): a non-Pauli process on two non-adjacent sites, a missing payload, or a
+    site list that is not of length one or two -/
+theorem applyProc_long_range_nonpauli (L : Nat) (p : Proc) (v : Vec) (i j : Nat) (hs : p.sites = [i, j])
+    (hp : p.pauli = false) (hl : isLongrange p = true) : applyProc L p v = none := by
+  unfold applyProc
+  rw [hs]
+  simp [hp, hl]
+
+end Yaqs.Lottery
